@@ -1130,6 +1130,8 @@ class Models:
         reg('linebreaks|unicode_linebreak::linebreaks', linebreaks)
         import models2
         models2.install(self)
+        import models3
+        models3.install(self)
 
     # ------------------------------------------------------------------
     def into_iter(self, I, x):
